@@ -6,7 +6,7 @@ PROP = {
     "generated": ["ReconTables"],
     "lean_modules": ["SwimVerif.Model.Recon", "SwimVerif.Model.ReconProto", "SwimVerif.Model.ReconInc",
                      "SwimVerif.Model.ReconIncProto", "SwimVerif.Proofs.Recon",
-                     "SwimVerif.Proofs.ReconFloat", "SwimVerif.Proofs.ReconStruct", "SwimVerif.Proofs.ReconStyles", "SwimVerif.Proofs.ReconInc", "SwimVerif.Proofs.ReconIncCoupled",
+                     "SwimVerif.Proofs.ReconFloat", "SwimVerif.Proofs.ReconStruct", "SwimVerif.Proofs.ReconStyles", "SwimVerif.Proofs.ReconInc", "SwimVerif.Proofs.ReconIncCoupled", "SwimVerif.Proofs.ReconIncSeq",
                      "SwimVerif.Generated.ReconTables"],
     "engines": [
         # model values -> real printers (exact text vs model print) and print/parse cycles (vs model parse)
@@ -28,7 +28,10 @@ PROP = {
     ],
     "rule": "values: one case = one generated model value with 3 print ops + 3 print/parse/print/parse cycles; texts: "
             "one case = one grammar-generated document; chunks: one case = one document with every single cut (<= 400 "
-            "bytes) or random multi-cuts; distinct = distinct op text (sha1)",
+            "bytes) or random multi-cuts, or (1 case in 3) a sequence of 2-4 short documents, malformed ones in any position, "
+            "through ONE decoder instance (WithLen frames back to back; bare decoder document after document) with every "
+            "single cut of the stream and random multi-cuts; chunksm: the same on documents where the model is an oracle; "
+            "distinct = distinct op text (sha1)",
     "level_text": "Proof: un-escaping what the printer's escape_text wrote gives the string back for every string "
                   "(never an error), un-escaping and the model parser never panic; the printer's quoting decision is_identifier agrees "
                   "with the tokenizer's identifier for every string — both over tables regenerated from the sources; "
@@ -37,14 +40,21 @@ PROP = {
                   "of values (strong induction over records/attributes/items), with witnesses that the unrestricted "
                   "statement is false of the code as it is.  Correspondence: real print_recon{,_compact,_pretty} = model print (exact text) on generated "
                   "model values, real parse_recognize::<Value> = model parse on grammar-generated documents and on "
-                  "printer output, monitor for recovery + fixed point on the real code; incremental decoders vs one-shot "
-                  "parser under every single cut and random multi-cuts (implementation-vs-implementation), no panic / no "
-                  "hang on mutated and invalid input.",
+                  "printer output, monitor for recovery + fixed point on the real code.  Incremental path: a Lean model of "
+                  "IncrementalReconParser + RecognizerDecoder::{decode,decode_eof} + WithLenRecognizerDecoder; proved for it: "
+                  "every streaming token / parser step verdict is stable under extension, chunked = unchunked, incremental = "
+                  "one-shot for every text and chunking (character level), the decoder is fresh after every finished "
+                  "document so sequences through one decoder decode document by document as one-shot, WithLen consumes "
+                  "exactly the announced length; the decoder model = the real decoders on every byte cut of single "
+                  "documents and of sequences of documents through one instance (chunksm); implementation-vs-implementation "
+                  "monitors (cut vs uncut vs one-shot, state leaking between documents), no panic / no hang on mutated and invalid input.",
     "level_note": "Labelled partial: parse-after-print is proved for the model parser (a reference recursive descent "
                   "that is tied to the real nom automaton by differential testing only), for the three styles, "
                   "floats as canonical shortest decimals; f64 <-> text (ryu, {:e}, str::parse) is not modelled — floats are exact "
-                  "shortest decimals and generators stay where ryu and {:e} agree; chunk-insensitivity of the real "
-                  "streaming decoder is tested, not proved.",
+                  "shortest decimals and generators stay where ryu and {:e} agree; the incremental theorems are about the "
+                  "Lean transcription of the automaton and decoders (tied to the real ones by chunksm), chunks of characters "
+                  "(read_utf8's byte splitting is modelled and tested, not in the theorem); WithLen freshness between frames "
+                  "is proved given decode_eof resets on BadUtf8, which the code does not (known finding C09-N5).",
     "trusted_base": COMMON_TRUST + [
         "modelled, not verified: nom (streaming combinators), ryu / core::fmt {:e} / str::parse::<f64>, base64, "
         "num-bigint, bytes::BytesMut, tokio_util::codec::Decoder driving convention (FramedRead)",
